@@ -451,12 +451,12 @@ M.contract(Q_IOP + '.__init__',
                     'runs nothing': lambda trace: trace == []},
            raises_only=())
 
-M.contract(Q_IOP + '.symbol_usages', params=dict(self=INSTRUCTION_OF_PART),
+M.contract(Q_IOP + '.symbol_usages', params=dict(self=INSTRUCTION_OF_PART), inline=True,
            ensures={'the references of the part; runs nothing': lambda self, result, trace:
            result is self._assertion_part.references and trace == []}, raises_only=())
 
 M.contract(Q_IOP + '.validate_pre_sds', params=dict(self=INSTRUCTION_OF_PART, environment=Iface(InstructionEnvI)),
-           returns=SVH,
+           returns=SVH, inline=True,
            ensures={
                'only the pre-sds part of the validator of the assertion part, once, in the environment given; no check':
                    lambda self, environment, trace:
@@ -473,7 +473,7 @@ M.contract(Q_IOP + '.validate_pre_sds', params=dict(self=INSTRUCTION_OF_PART, en
 M.contract(Q_IOP + '.main',
            params=dict(self=INSTRUCTION_OF_PART, environment=Iface(PostSdsInstructionEnvI), settings=Any_,
                        os_services=Any_),
-           returns=PFH,
+           returns=PFH, inline=True,
            ensures={
                'post-sds validation of the part first; iff it has nothing to say: the argument is computed and the '
                'part checked with it -- once; nothing else': lambda self, environment, os_services, trace:
@@ -506,7 +506,7 @@ M.trust('sdv_structure.references_from_objects_with_symbol_references concatenat
 
 M.contract(P_AP + ':SequenceOfCooperativeAssertionParts.__init__',
            params=dict(self=Inst(ap.SequenceOfCooperativeAssertionParts),
-                       assertion_parts=ListOf(Iface(AssertionPartI))),
+                       assertion_parts=ListOf(Iface(AssertionPartI))), inline=True,
            ensures={
                'its validator is the conjunction of the validators of ALL parts, in order':
                    lambda self, assertion_parts:
@@ -631,14 +631,14 @@ def _verdict(trace, step):
     return [e for e in trace if e[0] == 'validate-%s:returned' % step][-1][2]
 
 
-M.contract(P_IOM + ':Instruction.symbol_usages', params=dict(self=INSTRUCTION_OF_MATCHER),
+M.contract(P_IOM + ':Instruction.symbol_usages', params=dict(self=INSTRUCTION_OF_MATCHER), inline=True,
            ensures={'the references of the model getter and of the matcher -- all of them; runs nothing':
                     lambda self, result, trace:
                     result == tuple(self._model_getter.references) + tuple(self._matcher.references) and trace == []},
            raises_only=())
 
 M.contract(P_IOM + ':Instruction.validate_pre_sds',
-           params=dict(self=INSTRUCTION_OF_MATCHER, environment=Iface(PreSdsEnvOfMatcherI)), returns=SVH,
+           params=dict(self=INSTRUCTION_OF_MATCHER, environment=Iface(PreSdsEnvOfMatcherI)), returns=SVH, inline=True,
            ensures={
                'the pre-sds parts of the validators of BOTH the model getter and the matcher, as resolved with the '
                'symbols of the environment, on its home directories; nothing else': lambda self, environment, trace:
@@ -652,7 +652,7 @@ M.contract(P_IOM + ':Instruction.validate_pre_sds',
 
 M.contract(P_IOM + ':Instruction.main',
            params=dict(self=INSTRUCTION_OF_MATCHER, environment=Iface(PostSdsInstructionEnvI), settings=Any_,
-                       os_services=Any_), returns=PFH,
+                       os_services=Any_), returns=PFH, inline=True,
            ensures={
                'post-sds validation of both first; the model is fetched and the matcher applied to it iff they have '
                'nothing to say': lambda self, environment, trace:
@@ -1150,3 +1150,108 @@ M.contract(P_I + 'assert_.existence_of_file:_Instruction.__init__',
                     and self.symbol_usages() == list(path_sdv.references)
                     + ([] if file_matcher is None else list(file_matcher.references))},
            raises_only=())
+
+
+# ----- exit-code INTEGER-MATCHER
+from exactly_lib.impls.instructions.assert_.process_output.impl.exit_code import instruction as exit_code_instruction
+from exactly_lib.impls.types.matcher import property_matcher as _property_matcher
+
+M.contract('exactly_lib.impls.types.matcher.property_matcher:PropertyMatcherDdv.__init__',
+           params=dict(self=Inst(_property_matcher.PropertyMatcherDdv), matcher=Iface(c03._WithValidatorI),
+                       property_getter=Iface(c03._WithValidatorI), describer=Any_,
+                       get_int_interval_of_prop_matcher=Any_), inline=True,
+           ensures={'(inline) validated iff the matcher of the property and the property getter both are':
+                    lambda self, matcher, property_getter:
+                    self.validator.validators[0] is matcher.validator
+                    and self.validator.validators[1] is property_getter.validator},
+           raises_only=())
+
+
+def harness_exit_code_validate_pre_sds(matcher, model_getter, environment):
+    """`exit-code INTEGER-MATCHER` as exit_code.instruction(...) builds it (C10b: what the parser passes) is asked to
+    validate before the sandbox exists"""
+    return exit_code_instruction.instruction('exit-code', matcher, model_getter).validate_pre_sds(environment)
+
+
+M.contract(HARNESS + 'harness_exit_code_validate_pre_sds',
+           params=dict(matcher=Iface(SdvOfDdvWithValidatorI), model_getter=Iface(GetterSdvI),
+                       environment=Iface(PreSdsEnvOfMatcherI)), returns=SVH,
+           ensures={
+               'the source of the exit code (-from PROGRAM) and then -- iff it has nothing to say -- the INTEGER MATCHER '
+               'are validated: as resolved with the symbols of the environment, on its home directories':
+                   lambda matcher, model_getter, environment, trace:
+                   [e for e in trace if e[0] == 'resolve-getter'] == [('resolve-getter', model_getter,
+                                                                       (environment.symbols,))]
+                   and resolutions(trace) == [('resolve-arg', matcher, (environment.symbols,))]
+                   and validated(trace) == [(_resolved(trace, 'getter').validator, (environment.hds,))]
+                   + ([] if [e for e in trace if e[0] == 'validate-pre:returned'][0][2] is not None else
+                      [(resolved_arg(trace, matcher).validator, (environment.hds,))]),
+               'VALIDATION_ERROR iff one of them reports an error, with its message': lambda result, trace:
+               verdict_of(result, trace),
+               'nothing else: no main step, no effect': lambda trace: quiet(trace) and no_post_sds_validation(trace),
+           },
+           raises={ArbitraryException: {}}, raises_only=())
+
+
+# ----- stdout / stderr / contents PATH : STRING-MATCHER   (assert_/utils/file_contents/parse_instruction.Parser)
+from exactly_lib.impls.instructions.assert_.utils.file_contents import parse_instruction as _fc_parse_instruction
+from exactly_lib.impls.types.string_matcher import parse_string_matcher as _parse_string_matcher
+
+
+class ActualFileConstructorI(Interface):
+    """ComparisonActualFileConstructor: the file whose contents is checked (a path / the output of a program)"""
+    attrs = {'validator': Iface(ValidatorI), 'references': FixedList(Any_)}
+    methods = {'failure_message_header': Method(returns=Any_), 'construct': Method(returns=Any_, event='get-arg')}
+
+
+class ActualFileParserI(Interface):
+    methods = {'parse_from_token_parser': Method(returns=Iface(ActualFileConstructorI), may_raise=(_mk_arbitrary,),
+                                                 event='parse-actual-file')}
+
+
+class MatcherParserI(Interface):
+    methods = {'parse_from_token_parser': Method(returns=Iface(SdvOfDdvWithValidatorI), may_raise=(_mk_arbitrary,),
+                                                 event='parse-arg')}
+
+
+class MatcherParsersI(Interface):
+    attrs = {'full': Iface(MatcherParserI), 'simple': Iface(MatcherParserI)}
+
+
+def _m_string_matcher_parsers(interp, args, kwargs):
+    from pyvc.api import new_opaque
+    return new_opaque(interp, MatcherParsersI, 'string_matcher_parsers')
+
+
+M.model(_parse_string_matcher.parsers, _m_string_matcher_parsers)
+M.trust('parse_string_matcher.parsers() gives the parsers of STRING-MATCHER (grammar: C06); what they return is a '
+        'StringMatcherSdv')
+
+
+def harness_file_contents_instruction_parsed_then_validated(parser, tokens, environment):
+    """`stdout` / `stderr` / `contents PATH`: the instruction that the real parse_instruction.Parser makes of the
+    tokens (actual-file parser and STRING-MATCHER parser opaque) is asked to validate before the sandbox exists"""
+    return parser.parse_from_token_parser(tokens).validate_pre_sds(environment)
+
+
+M.contract(HARNESS + 'harness_file_contents_instruction_parsed_then_validated',
+           params=dict(parser=Inst(_fc_parse_instruction.Parser, _instruction_name=Str,
+                                   _actual_file_parser=Iface(ActualFileParserI)),
+                       tokens=Iface(TokensI), environment=Iface(PreSdsInstructionEnvI)), returns=SVH,
+           ensures={
+               'the file to check (the path / the program of -from) that was parsed is validated, then -- iff it has '
+               'nothing to say -- the STRING MATCHER that was parsed: as resolved with the symbols of the environment, '
+               'on its home directories': lambda environment, trace:
+               validated(trace)[0][0] is outcome_event(trace, 'parse-actual-file')[1].validator
+               and validated(trace)[0][1][0].symbols is environment.symbols
+               and validated(trace)[0][1][0].hds is environment.hds
+               and ((len(validated(trace)) == 1 and resolutions(trace) == [])
+                    if [e for e in trace if e[0] == 'validate-pre:returned'][0][2] is not None else
+                    (resolutions(trace) == [('resolve-arg', outcome_event(trace, 'parse-arg')[1], (environment.symbols,))]
+                     and validated(trace)[1:] == [(resolved_arg(trace, outcome_event(trace, 'parse-arg')[1]).validator,
+                                                   (environment.hds,))])),
+               'VALIDATION_ERROR iff one of them reports an error, with its message': lambda result, trace:
+               verdict_of(result, trace),
+               'nothing else: no main step, no effect': lambda trace: quiet(trace) and no_post_sds_validation(trace),
+           },
+           raises={ArbitraryException: {}}, raises_only=())
